@@ -5,28 +5,62 @@
    TaskControl.process leaves: no ExecNode yet, empty trace, loader.basename only ever names a
    task carrying that loader object, loader.task_dep (`executed`) is a task_dep of every task carrying
    the loader (Task.__init__).  All theorems quantify over every table, creator output, oracle
-   (set iteration orders), --continue/--always flag, fuel and selection satisfying that. *)
+   (set iteration orders), --continue/--always flag, fuel and selection satisfying that.
+   [keys_ok keys d0]: the list used to enumerate the task table (marking loop, control.py 497-499)
+   contains every entry that has a loader.
+   Runners: run_serial = the serial Runner.  run_script ops = ANY runner built on the same
+   dispatcher generator and the same select_task/execute_task/process_task_result/finish (MRunner,
+   MThreadRunner with any number of workers and any arrival order of results): ops is the sequence of
+   its calls; the *_any_schedule theorems hold for every such sequence, well-formed or not. *)
 From DoitV Require Import Base Dispatch Runner Delayed DelayedP.
 Open Scope N_scope.
 
-(* each creator function is evaluated at most once in a run (repaired code, HEAD 0acbaec), whatever
-   the number of placeholder tasks (`creates`), sub-task or regex placeholders that refer to it,
-   also in runs that end with an error or run out of fuel *)
-Theorem C15_creator_once : forall creators wake_rank calc_rank continue_ always fuel d0 c,
-  init_ok d0 ->
-  (n_create c (fst (run_serial false creators wake_rank calc_rank continue_ always fuel d0)) <= 1)%nat.
+(* each creator function is evaluated at most once in a run (HEAD), whatever the number of
+   placeholder tasks (several names in `creates`: one DelayedLoader copy each), sub-task or regex
+   placeholders that refer to it, and whichever of their ExecNodes exist already when the creator is
+   evaluated (nodes of the other names made earlier by a common parent keep their stale placeholder
+   object and its own loader copy: see stale_node_no_evaluation below); also in runs that end with
+   an error or run out of fuel *)
+Theorem C15_creator_once : forall keys creators wake_rank calc_rank continue_ always fuel d0 c,
+  init_ok d0 -> keys_ok keys d0 ->
+  (n_create c (fst (run_serial VHead keys creators wake_rank calc_rank continue_ always fuel d0)) <= 1)%nat.
 Proof. exact creator_once_init. Qed.
 Print Assumptions C15_creator_once.
 
+(* the same under every runner and schedule: e.g. executed=pre with 2 workers, where the nodes of all
+   names of `creates` are instantiated while pre is still running *)
+Theorem C15_creator_once_any_schedule : forall keys creators wake_rank calc_rank continue_ always fuel ops d0 c,
+  init_ok d0 -> keys_ok keys d0 ->
+  (n_create c (fst (run_script VHead keys creators wake_rank calc_rank continue_ always fuel ops d0)) <= 1)%nat.
+Proof. exact creator_once_script_init. Qed.
+Print Assumptions C15_creator_once_any_schedule.
+
+(* why a pre-existing node of another name does not evaluate again: its table entry was replaced by
+   the created task (no loader), and the flag that is tested is the one reachable through the table *)
+Theorem C15_stale_node_no_evaluation : forall keys creators d me T,
+  dt_loader (tab_get d (to_load_of d me T)) = None -> create_part VHead keys creators d me T = Some d.
+Proof. exact stale_node_no_evaluation. Qed.
+Print Assumptions C15_stale_node_no_evaluation.
+
 (* an evaluation of a creator through a loader whose `executed` is e comes after a final report
-   (success, up-to-date, ignored or failure) of task e -- for the repaired and the legacy code *)
-Theorem C15_after_trigger : forall legacy creators wake_rank calc_rank continue_ always fuel d0,
+   (success, up-to-date, ignored or failure) of task e -- for HEAD and both defective variants *)
+Theorem C15_after_trigger : forall v keys creators wake_rank calc_rank continue_ always fuel d0,
   init_ok d0 ->
   forall pre c l t post e,
-    fst (run_serial legacy creators wake_rank calc_rank continue_ always fuel d0) = pre ++ ECreate c l t :: post ->
+    fst (run_serial v keys creators wake_rank calc_rank continue_ always fuel d0) = pre ++ ECreate c l t :: post ->
     l_executed (q_ld d0 l) = Some e -> final_in e pre.
 Proof. exact after_trigger. Qed.
 Print Assumptions C15_after_trigger.
+
+(* ... under every runner and schedule (a script that sends a node back before the runner gave it a
+   status is stopped by the model: StopProtocol) *)
+Theorem C15_after_trigger_any_schedule : forall v keys creators wake_rank calc_rank continue_ always fuel ops d0,
+  init_ok d0 ->
+  forall pre c l t post e,
+    fst (run_script v keys creators wake_rank calc_rank continue_ always fuel ops d0) = pre ++ ECreate c l t :: post ->
+    l_executed (q_ld d0 l) = Some e -> final_in e pre.
+Proof. exact after_trigger_script. Qed.
+Print Assumptions C15_after_trigger_any_schedule.
 
 (* PARTIAL.  Proved: the tasks a creator yields become table entries without a loader (so the
    ExecNode made for them runs _add_task exactly as for a static task: no loader branch), and an
@@ -61,11 +95,11 @@ Print Assumptions C15_regex_target_select_partial.
 (* 2. when that placeholder reaches the loader branch and, after the creator ran, some task p has f
       as a target: p becomes a pending task_dep of the placeholder (so p and what p depends on are
       dispatched before it), the group is marked found and the node restarts as an ordinary task *)
-Theorem C15_regex_target_found_partial : forall legacy creators d me T d2 g f ks p,
-  create_part legacy creators d me T = Some d2 ->
+Theorem C15_regex_target_found_partial : forall v keys creators d me T d2 g f ks p,
+  create_part v keys creators d me T = Some d2 ->
   q_rxg d2 me = Some g -> q_grp d2 g = Build_rgroup f ks false -> q_tg d2 f = Some p ->
   dt_loader (tab_get d2 me) = Some T -> dn_task (node_of d2 me) = tab_get d2 me -> In f (dt_file_dep (tab_get d2 me)) ->
-  exists d', load_branch legacy creators d me T = LReset d' /\ g_found (q_grp d' g) = true /\
+  exists d', load_branch v keys creators d me T = LReset d' /\ g_found (q_grp d' g) = true /\
              In p (dn_pt (node_of d' me)) /\ dn_pc (node_of d' me) = QStart /\ dt_loader (dn_task (node_of d' me)) = None.
 Proof. exact load_branch_found. Qed.
 Print Assumptions C15_regex_target_found_partial.
@@ -74,14 +108,14 @@ Print Assumptions C15_regex_target_found_partial.
    Missing for 1-3: that every run reaches the loader branch of the placeholder (progress: no earlier
    failure stop, no cycle, enough fuel) and that nothing outside the dependency closure of p and of the
    trigger is executed; the multi-match RegexGroup logic is modelled and tied, not proved. *)
-Theorem C15_regex_target_missing_partial : forall legacy creators d me T d2 g f k r,
-  create_part legacy creators d me T = Some d2 ->
+Theorem C15_regex_target_missing_partial : forall v keys creators d me T d2 g f k r,
+  create_part v keys creators d me T = Some d2 ->
   q_rxg d2 me = Some g -> q_grp d2 g = Build_rgroup f [k] false -> l_basename (q_ld d2 T) = Some k ->
   q_tg d2 f = None ->
-  load_branch legacy creators d me T = LNotFound f d2 /\ exit_code r (StopNotFound f) = 3.
+  load_branch v keys creators d me T = LNotFound f d2 /\ exit_code r (StopNotFound f) = 3.
 Proof.
-  intros legacy creators d me T d2 g f k r H1 H2 H3 H4 H5.
-  exact (conj (load_branch_not_found legacy creators d me T d2 g f k H1 H2 H3 H4 H5) (not_found_exit r f)).
+  intros v keys creators d me T d2 g f k r H1 H2 H3 H4 H5.
+  exact (conj (load_branch_not_found v keys creators d me T d2 g f k H1 H2 H3 H4 H5) (not_found_exit r f)).
 Qed.
 Print Assumptions C15_regex_target_missing_partial.
 
@@ -97,22 +131,27 @@ Definition ex_sub (deps tg : list name) : dtask :=
 Definition ex_creators (c : N) (t : name) : list (name * dtask) :=
   [(2, ex_sub [3; 4] []); (3, ex_sub [1] [10]); (4, ex_sub [] [11])].
 Definition ex_d0 : dst := set_torun (loaded ex_tab ex_ld (fun _ => None)) [2].
-Definition ex_run legacy d := run_serial legacy ex_creators (fun _ _ => 0) (fun x => x) false false 200 d.
+Definition ex_keys : list name := [1; 2; 3; 4; 5; 20; 21; 22; 23].
+Definition ex_run v d := run_serial v ex_keys ex_creators (fun _ _ => 0) (fun x => x) false false 200 d.
 
-Example C15_init_ok_nonvacuous : init_ok ex_d0.
+Example C15_init_ok_nonvacuous : init_ok ex_d0 /\ keys_ok ex_keys ex_d0.
 Proof.
-  constructor; try reflexivity.
-  - intros T b. unfold ex_d0, ex_ld; simpl. destruct (T =? 2); simpl; discriminate.
-  - intros k T e. unfold ex_d0, tab_get, ex_tab, ex_ld; simpl.
-    destruct (k =? 1); simpl; [discriminate|]. destruct (k =? 2); simpl; [|discriminate].
-    intro H; inversion H; subst. simpl. intro H2; inversion H2; subst. left; reflexivity.
+  split.
+  - constructor; try reflexivity.
+    + intros T b. unfold ex_d0, ex_ld; simpl. destruct (T =? 2); simpl; discriminate.
+    + intros k T e. unfold ex_d0, tab_get, ex_tab, ex_ld; simpl.
+      destruct (k =? 1); simpl; [discriminate|]. destruct (k =? 2); simpl; [|discriminate].
+      intro H; inversion H; subst. simpl. intro H2; inversion H2; subst. left; reflexivity.
+  - intros k T. unfold ex_d0, tab_get, ex_tab; simpl.
+    destruct (k =? 1) eqn:E1; simpl; [discriminate|]. destruct (N.eqb_spec k 2) as [->|]; simpl; [|discriminate].
+    intros _. simpl. auto.
 Qed.
 
 (* the run evaluates the creator (once), after x succeeded, then runs d:a, d:b and the group d *)
 Example C15_trace_nonvacuous :
-  enc_dtrace (fst (ex_run false ex_d0)) =
+  enc_dtrace (fst (ex_run VHead ex_d0)) =
   [1;1; 5;1; 7;1; 6;1;  14;0;2;2;  1;3; 5;3; 7;3; 6;3;  1;4; 5;4; 7;4; 6;4;  1;2; 5;2; 7;2; 6;2;  10]%Z
-  /\ snd (ex_run false ex_d0) = 0.
+  /\ snd (ex_run VHead ex_d0) = 0.
 Proof. vm_compute. split; reflexivity. Qed.
 
 (* selection by target: `doit run <10>` with target_regex matching: exactly the producer d:a, its
@@ -121,13 +160,13 @@ Definition ex_sel (w : name) := process_sel (fun n => if n =? 5 then 2 else n) (
                                             (fun T f => f <? 13) (fun f k => 10 + f) false
                                             (loaded ex_tab ex_ld (fun _ => None)) [1; 2] (Some [w]).
 Example C15_regex_target_example :
-  option_map (fun d => (enc_dtrace (fst (ex_run false d)), snd (ex_run false d))) (ex_sel 10) =
+  option_map (fun d => (enc_dtrace (fst (ex_run VHead d)), snd (ex_run VHead d))) (ex_sel 10) =
   Some ([1;1; 5;1; 7;1; 6;1;  14;0;2;2;  1;3; 5;3; 7;3; 6;3;  1;20; 5;20; 7;20; 6;20;  10]%Z, 0).
 Proof. vm_compute. reflexivity. Qed.
 
 (* a target that matches the regex but that no created task produces: InvalidCommand, exit status 3 *)
 Example C15_regex_target_missing_example :
-  option_map (fun d => (enc_dtrace (fst (ex_run false d)), snd (ex_run false d))) (ex_sel 12) =
+  option_map (fun d => (enc_dtrace (fst (ex_run VHead d)), snd (ex_run VHead d))) (ex_sel 12) =
   Some ([1;1; 5;1; 7;1; 6;1;  14;0;2;2;  10;  15;12]%Z, 3).
 Proof. vm_compute. reflexivity. Qed.
 
@@ -140,7 +179,7 @@ Proof. vm_compute. reflexivity. Qed.
    empty task after the creator was evaluated; exit status 0, no error *)
 Theorem C15_unknown_subtask_is_error_refuted :
   exists d, ex_sel 5 = Some d /\
-            In (Ev (ESuccess 5)) (fst (ex_run false d)) /\ snd (ex_run false d) = 0 /\
+            In (Ev (ESuccess 5)) (fst (ex_run VHead d)) /\ snd (ex_run VHead d) = 0 /\
             ~ In 5 (map fst (ex_creators 0 2)).
 Proof.
   destruct (ex_sel 5) as [d|] eqn:E; [|vm_compute in E; discriminate].
@@ -158,10 +197,10 @@ Definition lg_tab (n : name) : option dtask :=
 Definition lg_ld (n : name) : loader := Build_loader 0 None None false false.
 Definition lg_creators (c : N) (t : name) : list (name * dtask) := [(2, ex_sub [] [])].
 Definition lg_d0 : dst := set_torun (loaded lg_tab lg_ld (fun _ => None)) [2; 6].
-Definition lg_run legacy := run_serial legacy lg_creators (fun _ _ => 0) (fun x => x) false false 200 lg_d0.
+Definition lg_run v := run_serial v [2; 6] lg_creators (fun _ _ => 0) (fun x => x) false false 200 lg_d0.
 
 Theorem C15_creator_once_legacy_refuted :
-  init_ok lg_d0 /\ n_create 0 (fst (lg_run true)) = 2%nat /\ n_create 0 (fst (lg_run false)) = 1%nat.
+  init_ok lg_d0 /\ n_create 0 (fst (lg_run VLegacy)) = 2%nat /\ n_create 0 (fst (lg_run VHead)) = 1%nat.
 Proof.
   split; [|split; vm_compute; reflexivity].
   constructor; try reflexivity.
@@ -169,3 +208,102 @@ Proof.
   - intros k T e _. simpl. discriminate.
 Qed.
 Print Assumptions C15_creator_once_legacy_refuted.
+
+(* ------------------------------------------------------------------ several names in `creates`, nodes made before the evaluation *)
+(* names: 1 = pre, 2 = a, 3 = b: placeholders of ONE creator create_after(executed='pre', creates=['a','b']) (one loader
+   copy each: 2 and 3), the creator yields a (target 10) and b (target 11); 4 = top with task_dep [a; b] *)
+Definition mn_ph (T : name) : dtask :=
+  {| dt := task_with_dep empty_task [1]; dt_file_dep := []; dt_targets := []; dt_loader := Some T |}.
+Definition mn_tab (n : name) : option dtask :=
+  if n =? 1 then Some (ex_sub [] []) else if n =? 2 then Some (mn_ph 2) else if n =? 3 then Some (mn_ph 3)
+  else if n =? 4 then Some (ex_sub [2; 3] []) else None.
+Definition mn_ld (n : name) : loader := Build_loader 0 (Some 1) None false false.
+Definition mn_creators (c : N) (t : name) : list (name * dtask) := [(2, ex_sub [] [10]); (3, ex_sub [] [11])].
+Definition mn_keys : list name := [1; 2; 3; 4].
+Definition mn_d0 (sel : list name) : dst := set_torun (loaded mn_tab mn_ld (fun _ => None)) sel.
+(* `doit run top`, serial runner: the nodes of a and b both exist (made by top) when the creator is evaluated *)
+Definition mn_serial v := run_serial v mn_keys mn_creators (fun _ _ => 0) (fun x => x) false false 200 (mn_d0 [4]).
+(* `doit run -n 2` (pre a b): worker 1 runs pre; meanwhile the dispatcher instantiates a and b (both wait for pre);
+   the script is the sequence of calls MRunner makes *)
+Definition mn_ops : list sop :=
+  [OSend None; OSelect 1; OSend None; OExec 1; OResult 1; OSend (Some 1); OSelect 3; OSend None; OSelect 2; OExec 3; OExec 2;
+   OResult 3; OSend (Some 3); OResult 2; OSend (Some 2); OFinish].
+Definition mn_script v := run_script v mn_keys mn_creators (fun _ _ => 0) (fun x => x) false false 200 mn_ops (mn_d0 [1; 2; 3]).
+
+Example C15_multi_names_init_ok_nonvacuous : forall sel, init_ok (mn_d0 sel) /\ keys_ok mn_keys (mn_d0 sel).
+Proof.
+  intro sel. split.
+  - constructor; try reflexivity.
+    + intros T b. simpl. discriminate.
+    + intros k T e. unfold mn_d0, tab_get, mn_tab, mn_ld; simpl.
+      destruct (k =? 1); simpl; [discriminate|].
+      destruct (k =? 2); simpl; [intros _ H; inversion H; subst; left; reflexivity|].
+      destruct (k =? 3); simpl; [intros _ H; inversion H; subst; left; reflexivity|].
+      destruct (k =? 4); simpl; discriminate.
+  - intros k T. unfold mn_d0, tab_get, mn_tab; simpl.
+    destruct (N.eqb_spec k 1) as [->|]; simpl; [discriminate|].
+    destruct (N.eqb_spec k 2) as [->|]; simpl; [intros _; simpl; auto|].
+    destruct (N.eqb_spec k 3) as [->|]; simpl; [intros _; simpl; auto|].
+    destruct (k =? 4); simpl; discriminate.
+Qed.
+
+(* HEAD: one evaluation (through the loader copy of b, whose node is resumed first), after pre; a, b and top succeed *)
+Example C15_two_names_shared_parent_example :
+  enc_dtrace (fst (mn_serial VHead)) =
+  [1;1; 5;1; 7;1; 6;1;  14;0;3;3;  1;3; 5;3; 7;3; 6;3;  1;2; 5;2; 7;2; 6;2;  1;4; 5;4; 7;4; 6;4;  10]%Z
+  /\ snd (mn_serial VHead) = 0.
+Proof. vm_compute. split; reflexivity. Qed.
+Example C15_two_names_trigger_two_workers_example :
+  n_create 0 (fst (mn_script VHead)) = 1%nat /\ In (Ev (ESuccess 2)) (fst (mn_script VHead)) /\
+  In (Ev (ESuccess 3)) (fst (mn_script VHead)) /\ snd (mn_script VHead) = 0.
+Proof. vm_compute. intuition. Qed.
+
+(* REFUTED for the seeded change C15b (the flag of the placeholder's own loader copy is tested instead of
+   tasks[to_load].loader): on the same two inputs the stale node of a evaluates the creator a second time; the
+   second evaluation registers the targets again -> InvalidTask, exit status 2; a is never executed *)
+Theorem C15_creator_once_own_loader_refuted :
+  n_create 0 (fst (mn_serial VOwn)) = 2%nat /\ snd (mn_serial VOwn) = 2 /\ ~ In (Ev (EExecute 2)) (fst (mn_serial VOwn)) /\
+  n_create 0 (fst (mn_script VOwn)) = 2%nat /\ snd (mn_script VOwn) = 2.
+Proof.
+  split; [vm_compute; reflexivity|]. split; [vm_compute; reflexivity|].
+  split; [vm_compute; intuition discriminate|]. split; vm_compute; reflexivity.
+Qed.
+Print Assumptions C15_creator_once_own_loader_refuted.
+
+(* ------------------------------------------------------------------ a failed trigger stays on the node that materialises the task *)
+(* names: 1 = f (its action fails), 2 = d = create_after(executed='f') yielding the group d with the sub-task d:0 (3),
+   4 = z (task_dep d); --continue.  ExecNode.reset_task (nd_reset) keeps bad_deps / ignored_deps of the placeholder. *)
+Definition ft_fail : dtask :=
+  {| dt := Build_task [] [] [] false false CkRun false OFail [] [] []; dt_file_dep := []; dt_targets := []; dt_loader := None |}.
+Definition ft_tab (n : name) : option dtask :=
+  if n =? 1 then Some ft_fail
+  else if n =? 2 then Some {| dt := task_with_dep empty_task [1]; dt_file_dep := []; dt_targets := []; dt_loader := Some 2 |}
+  else if n =? 4 then Some (ex_sub [2] []) else None.
+Definition ft_ld (n : name) : loader := Build_loader 0 (Some 1) None false false.
+Definition ft_creators (c : N) (t : name) : list (name * dtask) := [(2, ex_sub [3] []); (3, ex_sub [] [])].
+Definition ft_sel (ws : list name) :=
+  process_sel (fun n => if n =? 3 then 2 else n) (fun _ => false) (fun _ _ => false) (fun f k => 0) false
+              (loaded ft_tab ft_ld (fun _ => None)) [1; 2; 4] (Some ws).
+Definition ft_run (ws : list name) :=
+  option_map (fun d => run_serial VHead [1; 2; 3; 4] ft_creators (fun _ _ => 0) (fun x => x) true false 200 d) (ft_sel ws).
+
+(* REFUTED for a sub-task selected by name (HEAD; finding c08:delayed-subtask-by-name-after-failed-trigger of C08, not
+   repaired: clearing bad_deps in reset_task would also make the task d itself run after its failed trigger): the created
+   task d:0 has no dependency, yet `doit run --continue d:0 z` reports it UnmetDependency without executing it (the node of
+   the by-name placeholder d:0, which carries the failed trigger f, is the one that materialises it), while
+   `doit run --continue z d:0` executes it with success (the node of d materialises it; d:0 gets a fresh node) *)
+Theorem C15_created_subtask_keeps_failed_trigger_refuted :
+  (exists r, ft_run [4; 3] = Some r /\ In (Ev (ESuccess 3)) (fst r)) /\
+  (exists r, ft_run [3; 4] = Some r /\ In (Ev (EFailure 3 kind_unmet)) (fst r) /\ ~ In (Ev (EExecute 3)) (fst r)).
+Proof.
+  split.
+  - destruct (ft_run [4; 3]) as [r|] eqn:E; [|vm_compute in E; discriminate].
+    exists r. split; [reflexivity|].
+    assert (H : Some r = ft_run [4; 3]) by (symmetry; exact E). vm_compute in H. inversion H; subst. clear.
+    vm_compute. tauto.
+  - destruct (ft_run [3; 4]) as [r|] eqn:E; [|vm_compute in E; discriminate].
+    exists r. split; [reflexivity|].
+    assert (H : Some r = ft_run [3; 4]) by (symmetry; exact E). vm_compute in H. inversion H; subst. clear.
+    split; [vm_compute; tauto | vm_compute; intuition discriminate].
+Qed.
+Print Assumptions C15_created_subtask_keeps_failed_trigger_refuted.
